@@ -53,8 +53,12 @@ pub fn run_grp() {
         // not a group definition (shrinking reaches such lines): nothing to report
         if names.is_empty() || nmand == 0 || nmand > names.len() { println!("-6 # fails=-"); continue; }
         let nopt = names.len() - nmand;
+        // a name may be an aliased instantiation of a generic trait, written `Get<u8>=GetU8`: the alias is the trait's identity in the group
+        let full: Vec<String> = names.iter().map(|n| n.replace('=', " = ")).collect();
+        let names: Vec<String> = names.iter().map(|n| n.rsplit('=').next().unwrap().to_string()).collect();
         let lc: Vec<String> = names.iter().map(|n| n.to_lowercase()).collect();
-        let src = format!("cglue_trait_group!(G, {{ {} }}, {{ {} }});", names[..nmand].join(", "), names[nmand..].join(", "));
+        if hdr[0] == 204 { impl_rows(&full, &lc, nmand, nopt); continue; }
+        let src = format!("cglue_trait_group!(G, {{ {} }}, {{ {} }});", full[..nmand].join(", "), full[nmand..].join(", "));
         let res = std::panic::catch_unwind(|| {
             let f = syn::parse_file(&src).expect("group definition parses");
             let m = match f.items.into_iter().next().unwrap() { Item::Macro(m) => m, _ => unreachable!() };
@@ -118,4 +122,56 @@ pub fn run_grp() {
         }
         println!("{} # fails=-", rows.iter().map(|r| r.iter().map(|v| v.to_string()).collect::<Vec<_>>().join(" ")).collect::<Vec<_>>().join(" ; "));
     }
+}
+
+/// '204 <nmand> | names': cglue_impl_group!(T, G, { listed }, { listed }) through the REAL TraitGroupImpl for every subset of the optional traits, the
+/// traits listed in REVERSE input order.  Row per subset: [mask, vtables enabled by fill_table, number of enable calls, the same two for the Fwd
+/// filler, traits named by the where-bounds of fill_table, enable calls that name no optional trait of the group]
+fn impl_rows(full: &[String], lc: &[String], nmand: usize, nopt: usize) {
+    let mut rows: Vec<Vec<i64>> = vec![];
+    for mask in 0..(1i64 << nopt) {
+        let listed: Vec<&String> = (0..nopt).rev().filter(|b| mask & (1 << b) != 0).map(|b| &full[nmand + b]).collect();
+        let l = listed.iter().map(|s| s.as_str()).collect::<Vec<_>>().join(", ");
+        let src = format!("T, G, {{ {} }}, {{ {} }}", l, l);
+        let res = std::panic::catch_unwind(|| syn::parse_str::<cglue_gen::trait_groups::TraitGroupImpl>(&src).map(|g| g.implement_group().to_string()));
+        let exp = match res { Ok(Ok(e)) => e, Ok(Err(_)) => { rows.push(vec![mask, -8]); continue; } Err(_) => { rows.push(vec![mask, -7]); continue; } };
+        let file = match syn::parse_file(&exp) { Ok(f) => f, Err(_) => { rows.push(vec![mask, -8]); continue; } };
+        let mut row = vec![mask];
+        let mut bound_mask = -1; let mut extra = 0;
+        for fname in ["fill_table", "fill_fwd_table"] {
+            let mut found = false;
+            for it in &file.items { if let Item::Impl(im) = it { for ii in &im.items { if let ImplItem::Method(m) = ii { if m.sig.ident == fname {
+                found = true;
+                let body = norm(&m.block);
+                // the body is `table.enable_a().enable_b()...`
+                let mut em = 0; let mut cnt = 0;
+                if !body.starts_with("{table") { em = -2; }
+                for call in body.split(".enable_").skip(1) {
+                    let n: String = call.chars().take_while(|c| c.is_alphanumeric() || *c == '_').collect();
+                    cnt += 1;
+                    match lc.iter().skip(nmand).position(|x| *x == n) { Some(p) => { if em >= 0 { em |= 1 << p; } } None => extra += 1 }
+                }
+                row.extend([em, cnt]);
+                if fname == "fill_table" {
+                    // where-bounds: `Self: Trait<..>,` per enabled trait (by its raw name) and `&'a TraitVtbl<..>: 'a + Default`
+                    let wc = im.generics.where_clause.as_ref().map(|w| norm(w)).unwrap_or_default();
+                    let mut bm = 0;
+                    for (i, f) in full.iter().enumerate().skip(nmand) {
+                        let raw: String = f.split('=').next().unwrap().trim().replace(' ', "");
+                        let raw_ident: String = raw.chars().take_while(|c| c.is_alphanumeric() || *c == '_').collect();
+                        let gens = &raw[raw_ident.len()..];
+                        let gens_inner = gens.trim_start_matches('<').trim_end_matches('>');
+                        let bound = if gens_inner.is_empty() { format!("Self:{}<>,", raw_ident) } else { format!("Self:{}<{}>,", raw_ident, gens_inner) };
+                        let bound2 = if gens_inner.is_empty() { format!("Self:{}<>", raw_ident) } else { format!("Self:{}<{},>", raw_ident, gens_inner) };
+                        if wc.contains(&bound) || wc.contains(&bound2) { bm |= 1 << (i - nmand); }
+                    }
+                    bound_mask = bm;
+                }
+            } } } } }
+            if !found { row.extend([-1, -1]); }
+        }
+        row.extend([bound_mask, extra]);
+        rows.push(row);
+    }
+    println!("{} # fails=-", rows.iter().map(|r| r.iter().map(|v| v.to_string()).collect::<Vec<_>>().join(" ")).collect::<Vec<_>>().join(" ; "));
 }
